@@ -88,6 +88,10 @@ def gen_url(rng, hosts=None, simple=False):
         user = rng.choice(['u', 'user', 'U%20ser', 'u%0D%0A', 'näme', 'a%40b', '']) if not simple else 'u%d' % rng.randrange(1000)
         if rng.random() < 0.8:
             pw = rng.choice(['p', 'secret', 'p%3Aw', 'p%0Aq', 'p w', 'p@ss'.replace('@', '%40'), '']) if not simple else 'p%d' % rng.randrange(1000)
+        if rng.random() < 0.35:
+            # long credentials: 'user:password' of 58 bytes and more is where a line-wrapping base64 breaks the line
+            user = 'u%d' % rng.randrange(1000) + gen_long_cred(rng, 20, 120)
+            pw = 'p%d' % rng.randrange(1000) + gen_long_cred(rng, 20, 120)
     if simple:
         path = '/' + '/'.join(rng.choice(['a', 'b', 'x', 'dir', 'i.html']) for _ in range(rng.randrange(0, 3)))
         query = rng.choice(['', '', 'q=1', 'a=b&c=d'])
@@ -115,6 +119,21 @@ def gen_url(rng, hosts=None, simple=False):
     elif query:
         url += '?' + query
     return url
+
+
+def gen_long_cred(rng, lo=40, hi=200):
+    """a long user name / password as it appears in a URL (percent-encoded bytes included)"""
+    n = rng.randrange(lo, hi + 1)
+    out = []
+    size = 0
+    while size < n:
+        if rng.random() < 0.12:
+            out.append(rng.choice(['%C3%A9', '%20', '%3A', '%40', '%2F', '%E2%82%AC', '%7E', '%0A', '%0D']))
+            size += 1
+        else:
+            out.append(rng.choice('abcdefghijklmnopqrstuvwxyzABCDEFGHIJKLMNOPQRSTUVWXYZ0123456789-._~'))
+            size += 1
+    return ''.join(out)
 
 
 FIELD_NAMES = ['User-Agent', 'Accept', 'accept-encoding', 'REFERER', 'x-foo_bar9a', 'X-1a-b', 'Cache-Control',
@@ -149,6 +168,25 @@ def real_prep(url, method, version, pairs, full):
         return 'ok', req.to_bytes(), req
     except Exception as e:
         return 'exc', type(e).__name__, req
+
+
+def real_prep2(url, method, version, pairs, full1, full2):
+    """prepare_for_send twice (as _process_redirect and then Stream.write_request do), then to_bytes()"""
+    from wpull.protocol.http.request import Request
+    req = Request(url, method=method, version=version)
+    for n, v in pairs:
+        req.fields.add(n, v)
+    try:
+        req.prepare_for_send(full_url=full1)
+        req.prepare_for_send(full_url=full2)
+        return 'ok', req.to_bytes(), req
+    except Exception as e:
+        return 'exc', type(e).__name__, req
+
+
+def prep2_line(c, method, version, pairs, full1, full2):
+    return 'request prep2 %s %s %s %s %s %s' % ('T' if full1 else 'F', 'T' if full2 else 'F', enc(method), enc(version),
+                                                  fields_token(pairs), url_token(c))
 
 
 def prep_line(c, method, version, pairs, full):
@@ -210,20 +248,23 @@ class Script:
     """What the fake servers answer: the k-th request (over all connections) gets replies[k].
     reply = {'status': int, 'location': bytes|None, 'cookies': [bytes], 'mode': 'resp'|'close'|'garbage'}"""
 
-    def __init__(self, replies):
+    def __init__(self, replies, robots_replies=None):
         self.replies = replies
         self.log = []          # (ip, port, head bytes, body bytes)
+        self.robots_replies = robots_replies      # None: /robots.txt is an ordinary page
+        self.rlog = []         # requests for /robots.txt when robots_replies is given
 
 
 def response_bytes(rep):
-    h = b'HTTP/1.1 %d X\r\nContent-Length: 0\r\n' % rep['status']
+    body = rep.get('body', b'')
+    h = b'HTTP/1.1 %d X\r\nContent-Length: %d\r\n' % (rep['status'], len(body))
     if rep.get('location') is not None:
         h += b'Location: ' + rep['location'] + b'\r\n'
     for c in rep.get('cookies', ()):
         h += b'Set-Cookie: ' + c + b'\r\n'
     for x in rep.get('extra', ()):
         h += x + b'\r\n'
-    return h + b'\r\n'
+    return h + b'\r\n' + body
 
 
 class ScriptServer:
@@ -251,10 +292,16 @@ class ScriptServer:
             if len(self.buf) < self.need_body:
                 return
             body, self.buf = self.buf[:self.need_body], self.buf[self.need_body:]
-            k = len(self.script.log)
-            self.script.log.append((conn.address[0], conn.address[1], self.head, body))
+            if self.script.robots_replies is not None and self.head.split(b' ')[1:2] == [b'/robots.txt']:
+                k = len(self.script.rlog)
+                self.script.rlog.append((conn.address[0], conn.address[1], self.head, body))
+                replies = self.script.robots_replies
+            else:
+                k = len(self.script.log)
+                self.script.log.append((conn.address[0], conn.address[1], self.head, body))
+                replies = self.script.replies
             self.head = None
-            rep = self.script.replies[k] if k < len(self.script.replies) else {'status': 200, 'mode': 'resp'}
+            rep = replies[k] if k < len(replies) else {'status': 200, 'mode': 'resp'}
             mode = rep.get('mode', 'resp')
             if mode == 'close':
                 conn.close()
@@ -401,17 +448,20 @@ def run_session(url, replies, max_redirects=20, use_jar=True, factory_pairs=(('U
                 last = loads[-1][0]
             # model parameters: what urljoin + URLInfo.parse make of each Location
             mreplies = []
+            bases = []
             li = 0
             for k in range(len(script.log)):
                 rep = replies[k] if k < len(replies) else {'status': 200, 'mode': 'resp'}
                 if rep.get('mode', 'resp') != 'resp':
                     mreplies.append((0, False, 3 if rep['mode'] == 'close' else 4, None))
+                    bases.append(None)
                     continue
                 if li < len(loads):
                     st, loc, base = loads[li]
                     li += 1
                 else:
                     raise Infra('response without RedirectTracker.load')
+                bases.append(base)
                 kind, c = 0, None
                 if loc:
                     try:
@@ -427,7 +477,7 @@ def run_session(url, replies, max_redirects=20, use_jar=True, factory_pairs=(('U
             hops = [(resolver.host_of(ip) or ip, port, head, bd) for ip, port, head, bd in script.log]
             return {'hops': hops, 'outcome': outcome, 'last': last,
                     'answers': list(jar.answers) if jar is not None else [],
-                    'mreplies': mreplies, 'init_pairs': init_pairs, 'init_url': init_url,
+                    'mreplies': mreplies, 'bases': bases, 'init_pairs': init_pairs, 'init_url': init_url,
                     'conns': len(net.conns)}
     return compat.run(go())
 
@@ -447,6 +497,12 @@ def session_line(res, max_redirects, use_jar, factory_pairs, login, method, prox
     if tries is not None:
         toks.append(str(tries))
         toks.append(enc(res.get('rejects', [])))
+        rb = res.get('robots')
+        toks.append('off' if not rb else ('disallow' if rb.get('disallow') else 'allow'))
+        toks.append(str(len(res.get('rmreplies', []))))
+        for st, hl, kind, c in res.get('rmreplies', []):
+            toks.append('%d:%d:%d' % (st, 1 if hl else 0, kind))
+            toks.append(url_token(c) if c is not None else '~')
     toks += [str(max_redirects), 'T' if proxy else 'F', 'T' if use_jar else 'F', fields_token(factory_pairs),
              enc(method), fields_token(res['init_pairs']), enc((login or ('', ''))[0] or ''),
              enc((login or ('', ''))[1] or ''), url_token(urlc(res['init_url'])),
@@ -473,12 +529,42 @@ def decode_basic(value):
         raw = base64.b64decode(value[6:]).decode('utf-8', 'replace')
     except Exception:
         return None
-    u, _, p = raw.partition(':')
-    return u, p
+    return raw          # 'user:password' (either part may itself hold a colon: compare whole strings)
 
 
 # ------------------------------------------------------------------ end-to-end: the real application over fakenet
-def run_crawl(url, replies, tries, max_redirects, login=None, timeout=120):
+class CheckOutCap(Exception):
+    """more check-outs than any terminating crawl of the case can make: the run is cut"""
+
+
+def model_replies(log, replies, loads_iter):
+    """model parameters for the responses to the logged requests (what urljoin + URLInfo.parse make of each Location)"""
+    import wpull.url
+    out = []
+    for k in range(len(log)):
+        rep = replies[k] if k < len(replies) else {'status': 200, 'mode': 'resp'}
+        if rep.get('mode', 'resp') != 'resp':
+            out.append((0, False, 3 if rep['mode'] == 'close' else 4, None))
+            continue
+        try:
+            st, loc, base = next(loads_iter)
+        except StopIteration:
+            raise Infra('response without RedirectTracker.load')
+        kind, c = 0, None
+        if loc:
+            try:
+                k2, info = parse_url(wpull.url.urljoin(base, loc))
+            except ValueError:
+                k2, info = 'invalid', None
+            if k2 == 'url':
+                kind, c = 2, urlc(info)
+            elif k2 == 'other':
+                kind = 1
+        out.append((st, bool(loc), kind, c))
+    return out
+
+
+def run_crawl(url, replies, tries, max_redirects, login=None, timeout=20, robots=None, cap=None):
     """Builder(args).build().run() of the REAL application (pipeline, URL table, processor, rules,
     filters, web client) against the scripted servers.  Returns the visits of `url` as seen at the
     URL table: [(requests issued during the visit, status after, try_count after)], plus the
@@ -491,9 +577,14 @@ def run_crawl(url, replies, tries, max_redirects, login=None, timeout=120):
     from wpull.database.wrap import URLTableHookWrapper
     from wpull.protocol.http.redirect import RedirectTracker
 
-    script = Script(replies)
+    script = Script(replies, robots_replies=(robots['replies'] if robots else None))
     loads = []
     events = []
+    if cap is None:
+        # a terminating crawl of ONE url makes at most tries+1 check-outs (tries >= 1); with tries = 0 every
+        # visit that is offered again consumed a scripted reply
+        cap = (tries + 4) if tries >= 1 else (len(replies) + len(robots['replies'] if robots else []) + 6)
+    capped = [False]
 
     class LogTracker(RedirectTracker):
         def load(self, response):
@@ -503,14 +594,17 @@ def run_crawl(url, replies, tries, max_redirects, login=None, timeout=120):
     class LogTable(URLTableHookWrapper):
         def check_out(self, filter_status, filter_level=None):
             rec = super().check_out(filter_status, filter_level)
-            events.append(('out', rec.url, str(rec.status), rec.try_count, len(script.log)))
+            if len([e for e in events if e[0] == 'out']) >= cap:
+                capped[0] = True
+                raise CheckOutCap()
+            events.append(('out', rec.url, str(rec.status), rec.try_count, len(script.log), len(script.rlog)))
             return rec
 
         def check_in(self, url, new_status, increment_try_count=True, url_result=None):
             r = super().check_in(url, new_status, increment_try_count=increment_try_count, url_result=url_result)
             rec = self.url_table.get_one(url)
             events.append(('in', url, getattr(rec.status, 'value', str(rec.status)), rec.try_count, len(script.log),
-                           bool(increment_try_count)))
+                           bool(increment_try_count), len(script.rlog)))
             return r
 
     class Res(NamedResolver):
@@ -534,7 +628,7 @@ def run_crawl(url, replies, tries, max_redirects, login=None, timeout=120):
     net = fakenet.FakeNet()
     net.default = lambda: ScriptServer(script)
     tmp = tempfile.mkdtemp(prefix='c18-')
-    argv = [url, '--no-robots', '--tries', str(tries), '--max-redirect', str(max_redirects), '--waitretry', '0',
+    argv = [url] + (['--recursive', '--level', '1'] if robots else ['--no-robots']) + ['--tries', str(tries), '--max-redirect', str(max_redirects), '--waitretry', '0',
             '-q', '--directory-prefix', tmp, '--delete-after', '--no-check-certificate', '--html-parser', 'html5lib']
     if login:
         argv += ['--http-user', login[0], '--http-password', login[1]]
@@ -552,11 +646,31 @@ def run_crawl(url, replies, tries, max_redirects, login=None, timeout=120):
             app = b.build()
 
             async def go():
-                return await compat._ensure(app.run())
+                task = asyncio.ensure_future(compat._ensure(app.run()))
+                t0 = loop.time()
+                while True:
+                    done, _ = await asyncio.wait([task], timeout=0.05)
+                    if done:
+                        return task.result()
+                    if capped[0] or loop.time() - t0 > timeout:
+                        # runaway crawl (check-out cap) or hang: cut it, do not wait for the application
+                        task.cancel()
+                        try:
+                            await asyncio.wait([task], timeout=2)
+                        except Exception:
+                            pass
+                        if not capped[0]:
+                            raise asyncio.TimeoutError()
+                        return None
             try:
-                exit_code = loop.run_until_complete(asyncio.wait_for(go(), timeout))
+                exit_code = loop.run_until_complete(go())
             except asyncio.TimeoutError:
                 hung = True
+            except CheckOutCap:
+                pass
+            except Exception:
+                if not capped[0]:
+                    raise
     finally:
         try:
             pending = [t for t in asyncio.all_tasks(loop) if not t.done()]
@@ -575,31 +689,19 @@ def run_crawl(url, replies, tries, max_redirects, login=None, timeout=120):
         if ev[0] == 'out':
             start = ev
         elif ev[0] == 'in' and start is not None:
-            visits.append({'requests': ev[4] - start[4], 'status': ev[2], 'try_count': ev[3], 'incremented': ev[5],
-                           'try_before': start[3]})
+            visits.append({'requests': ev[4] - start[4], 'robots_requests': ev[6] - start[5], 'status': ev[2],
+                           'try_count': ev[3], 'incremented': ev[5], 'try_before': start[3]})
             start = None
-    mreplies = []
-    li = 0
-    for k in range(len(script.log)):
-        rep = replies[k] if k < len(replies) else {'status': 200, 'mode': 'resp'}
-        if rep.get('mode', 'resp') != 'resp':
-            mreplies.append((0, False, 3 if rep['mode'] == 'close' else 4, None))
-            continue
-        if li >= len(loads):
-            raise Infra('response without RedirectTracker.load')
-        st, loc, base = loads[li]
-        li += 1
-        kind, c = 0, None
-        if loc:
-            try:
-                k2, info = parse_url(wpull.url.urljoin(base, loc))
-            except ValueError:
-                k2, info = 'invalid', None
-            if k2 == 'url':
-                kind, c = 2, urlc(info)
-            elif k2 == 'other':
-                kind = 1
-        mreplies.append((st, bool(loc), kind, c))
+    from urllib.parse import urlsplit
+    if robots:
+        rloads = iter([l for l in loads if urlsplit(l[2]).path == '/robots.txt'])
+        ploads = iter([l for l in loads if urlsplit(l[2]).path != '/robots.txt'])
+    else:
+        rloads, ploads = iter([]), iter(loads)
+    mreplies = model_replies(script.log, replies, ploads)
+    rmreplies = model_replies(script.rlog, robots['replies'], rloads) if robots else []
     from wpull.url import URLInfo
     return {'visits': visits, 'events': events, 'hops': list(script.log), 'mreplies': mreplies, 'exit': exit_code,
-            'hung': hung, 'rejects': rejects, 'answers': [], 'init_pairs': [], 'init_url': URLInfo.parse(url)}
+            'hung': hung, 'capped': capped[0], 'checkouts': len([e for e in events if e[0] == 'out']),
+            'rhops': list(script.rlog), 'rmreplies': rmreplies, 'robots': robots,
+            'rejects': rejects, 'answers': [], 'init_pairs': [], 'init_url': URLInfo.parse(url)}
